@@ -201,8 +201,21 @@ def r3(ctx):
                 r = r2
         except Exception:
             pass
+    verdict = None
+    if m is None:
+        # spelled differently (negated test with early return ..): find the slot it reads and compare as a decision tree
+        slots = [x for x in walk(r) if isinstance(x, tuple) and x and x[0] == 'index' and is_table(x[1])]
+        if slots:
+            sl = slots[0]
+            concrete = ('ite', ('bin', 'Eq', ('field', sl, 'hash'), ('param', 2)),
+                        ((0, none), ('otherwise', ('agg', 'core::option::Option', 'Some', (('0', ('field', sl, 'entry')),)))))
+            verdict, why = decide_equal(ctx, [concrete], r)
+            if verdict == 'ok':
+                m = {'slot': sl}
     if m is not None and m['slot'][0] == 'index' and is_table(m['slot'][1]):
         ctx.ok(R, 'get = if slot.hash == hash {Some(slot.entry)} else {None}', where(s.body))
+    elif verdict == 'inconclusive':
+        ctx.inconclusive(R, 'get(): value not recognised (%s): %s' % (why, sh(r, 300)))
     else:
         ctx.violation(R, GET, 'expected Some(slot.entry) iff slot.hash == hash, got ' + sh(r, 500), where(s.body))
     # no writes
